@@ -17,7 +17,7 @@ from .util import loops
 
 PUT_FIXED = {"put_u8": 1, "put_i8": 1, "put_u16": 2, "put_i16": 2, "put_u16_le": 2, "put_u32": 4, "put_i32": 4, "put_u32_le": 4, "put_f32": 4,
              "put_u64": 8, "put_i64": 8, "put_f64": 8, "put_u128": 16, "put_i128": 16}
-NO_WRITE = re.compile(r".*::(len|is_empty|as_mut|as_ref|remaining_mut|remaining|reserve|capacity|chunk_mut|deref|deref_mut|borrow|borrow_mut|has_remaining_mut|clone)$")
+NO_WRITE = re.compile(r".*::(len|is_empty|as_mut|as_ref|remaining_mut|remaining|reserve|capacity|chunk_mut|deref|deref_mut|borrow|borrow_mut|has_remaining_mut|clone|index|index_mut)$")
 
 
 class ByteCount:
